@@ -919,7 +919,7 @@ func ruleRecordOrigin(r *Run) {
 	recv, rec := nx.Params[0], nx.Params[1]
 	isRes := func(v ssa.Value) bool {
 		f, base, ok := loadOfField(unspill(v))
-		return ok && f == "resource" && base == ssa.Value(recv)
+		return ok && f == "resource" && (base == ssa.Value(recv) || originValueIn(base, funcGroup(nx)) == ssa.Value(recv))
 	}
 	var writes []*ssa.Store
 	for _, gf := range funcGroup(nx) {
@@ -932,13 +932,13 @@ func ruleRecordOrigin(r *Run) {
 			if !ok || f != "ResourceAttrs" {
 				return
 			}
-			// the record parameter itself, or a Record literal that is then assigned to *r
-			toRecord := base == ssa.Value(rec)
+			// the record parameter itself (possibly seen from a helper), or a Record literal that is then assigned to *r
+			toRecord := base == ssa.Value(rec) || originValueIn(base, funcGroup(nx)) == ssa.Value(rec)
 			if al, ok := base.(*ssa.Alloc); ok && typeKey(al.Type()) == "Record" {
 				for _, ref := range *al.Referrers() {
 					if ld, ok := ref.(*ssa.UnOp); ok {
 						for _, r2 := range *ld.Referrers() {
-							if s2, ok := r2.(*ssa.Store); ok && s2.Addr == ssa.Value(rec) {
+							if s2, ok := r2.(*ssa.Store); ok && (s2.Addr == ssa.Value(rec) || originValueIn(s2.Addr, funcGroup(nx)) == ssa.Value(rec)) {
 								toRecord = true
 							}
 						}
@@ -957,9 +957,13 @@ func ruleRecordOrigin(r *Run) {
 	}
 	must := false
 	for _, st := range writes {
-		all := st.Parent() == nx
+		lifted := liftInstr(st, nx, funcGroup(nx), true)
+		if lifted == nil {
+			continue
+		}
+		all := true
 		for _, ret := range returnsOf(nx) {
-			if st.Parent() == nx && !instrDominates(st, ret) {
+			if !instrDominates(lifted, ret) {
 				all = false
 			}
 		}
